@@ -1,0 +1,34 @@
+//go:build verif
+
+// Contracts for package http (witness read API), checked by /verif/govc (see /verif/DESIGN.md, C16).
+// This file contains no code: only structured //@ comments keyed by function.
+
+package http
+
+//@ func (*Server).getCheckpoint
+//@   let S      := s.w.lsp
+//@   let id     := muxVar(r, "logid")
+//@   let roFail := n_ro == old(n_ro) + 1 && ro_err != nil
+//@   let glFail := n_gl == old(n_gl) + 1 && gl_err != nil && code(gl_err) != NotFound
+//@   requires s != nil && s.w != nil && s.w.lsp != nil && w != nil && n_wh == 0
+//@   modifies n_ro, ro_err, n_gl, gl_err, gl_val, gl_h, n_wh, wh_code, n_write, body_out, n_hdr, hdr_key, hdr_val
+//@   // 200 and exactly the stored bytes of exactly the requested log; 404 while the witness holds none
+//@   ensures[C16.h1] st_has[S][id] && !roFail && !glFail ==> n_wh == 1 && wh_code == 200 && n_write == old(n_write) + 1 && body_out == st_val[S][id]
+//@   ensures[C16.h2] !st_has[S][id] && !roFail && !glFail ==> n_wh == 1 && wh_code == 404
+//@   ensures[C16.h3] n_wh == 1 && (wh_code == 200 ==> st_has[S][id] && body_out == st_val[S][id])
+//@   ensures[C16.h4,C03.h] st_has == old(st_has) && st_val == old(st_val) && n_wo == old(n_wo) && n_set == old(n_set)
+
+//@ func (*Server).getLogs
+//@   let S := s.w.lsp
+//@   requires s != nil && s.w != nil && s.w.lsp != nil && w != nil && n_wh == 0
+//@   modifies n_logs, logs_out, logs_err, n_json, json_err, n_wh, wh_code, n_write, body_out, n_hdr, hdr_key, hdr_val
+//@   // the body is the JSON list of exactly the IDs for which the witness holds a checkpoint
+//@   ensures[C16.l1] logs_err == nil && json_err == nil ==> n_wh == 1 && wh_code == 200 && str(body_out) == jsonStrs(logs_out)
+//@   ensures[C16.l1] logs_err == nil ==> (forall j int :: 0 <= j && j < len(logs_out) ==> st_has[S][strAt(logs_out, j)])
+//@                   && (forall k string :: st_has[S][k] ==> (exists j int :: 0 <= j && j < len(logs_out) && strAt(logs_out, j) == k))
+//@   ensures[C16.l2] logs_err != nil || (n_json == old(n_json) + 1 && json_err != nil) ==> n_wh == 1 && wh_code == 500
+//@   ensures[C16.h4,C03.h] st_has == old(st_has) && st_val == old(st_val)
+
+//@ func httpForCode
+//@   returns (r)
+//@   ensures[C16.c] (c == NotFound ==> r == 404) && (r == 404 ==> c == NotFound) && (r == 409 || r == 404 || r == 400 || r == 500)
